@@ -1,21 +1,1228 @@
-(* C11 -- theorems about the transition system of RCacheModel.v. *)
+(* C11 -- theorems about the transition system of RCacheModel.v (the code after fix bb46216,
+   `fixed = true`), for an ARBITRARY underlying sequence `seq`, ANY set of operations and ANY
+   schedule.
+
+     Inv                  the invariant: cache = firstn gpos seq; generator finished -> cache = seq and
+                          _len = |seq|; complete -> finished; lock held by t <-> t's pc is inside the
+                          critical section; every iterator has delivered exactly a prefix of seq
+                          (firstn i seq), its cursor never passes the cache, it never raises.
+     inv_reachable        Inv holds in every state reachable under any schedule (induction over exec).
+     observes_uncached    every thread's received values are a prefix of seq; a finished operation
+                          returned what it returns on an uncached rule (spec_result).
+     no_deadlock          in every reachable state that is not all-done some thread can step.
+     crit_progress        a lock holder's steps are never blocked and strictly decrease a rank <= 31:
+                          the lock is released within 31 of the holder's own steps.
+   The pre-fix code (`fixed = false`) is shown to deadlock (prefix_code_deadlocks). *)
 From Coq Require Import ZArith List Bool Arith Lia.
 From V Require Import rcache.RCacheModel rcache.RCacheSpec.
 Import ListNotations.
 Open Scope Z_scope.
 
+(* ------------------------------------------------------------------------------------------ *)
+(* list facts (slices are only ever rewritten, never simplified) *)
+
+Lemma firstn_snoc_nth : forall (l : list Z) n v,
+  nth_error l n = Some v -> firstn (S n) l = firstn n l ++ [v].
+Proof.
+  induction l as [|x l IH]; intros [|n] v H; try discriminate.
+  - inversion H; reflexivity.
+  - change (firstn (S (S n)) (x :: l)) with (x :: firstn (S n) l).
+    change (firstn (S n) (x :: l)) with (x :: firstn n l).
+    change (nth_error (x :: l) (S n)) with (nth_error l n) in H.
+    rewrite (IH _ _ H). reflexivity.
+Qed.
+
+Lemma skipn_nth : forall (l : list Z) n v,
+  nth_error l n = Some v -> skipn n l = v :: skipn (S n) l.
+Proof.
+  induction l as [|x l IH]; intros [|n] v H; try discriminate.
+  - inversion H; reflexivity.
+  - change (skipn (S n) (x :: l)) with (skipn n l).
+    change (skipn (S (S n)) (x :: l)) with (skipn (S n) l).
+    apply IH. exact H.
+Qed.
+
+Lemma nth_error_firstn_lt : forall (l : list Z) n i,
+  (i < n)%nat -> nth_error (firstn n l) i = nth_error l i.
+Proof.
+  induction l as [|x l IH]; intros n i H.
+  - rewrite firstn_nil. reflexivity.
+  - destruct n as [|n]; [lia|]. destruct i as [|i]; [reflexivity|].
+    change (nth_error (firstn (S n) (x :: l)) (S i)) with (nth_error (firstn n l) i).
+    change (nth_error (x :: l) (S i)) with (nth_error l i).
+    apply IH. lia.
+Qed.
+
+Lemma nth_error_some_lt : forall (l : list Z) n v, nth_error l n = Some v -> (n < length l)%nat.
+Proof. intros l n v H. apply nth_error_Some. rewrite H. discriminate. Qed.
+
+Lemma nth_error_lt_some : forall (l : list Z) n, (n < length l)%nat -> exists v, nth_error l n = Some v.
+Proof.
+  intros l n H. destruct (nth_error l n) eqn:E; [eauto|].
+  apply nth_error_None in E. lia.
+Qed.
+
+Lemma last_opt_snoc : forall l x, last_opt (l ++ [x]) = Some x.
+Proof. intros. unfold last_opt. rewrite rev_app_distr. reflexivity. Qed.
+
+(* ------------------------------------------------------------------------------------------ *)
+(* consumers *)
+
+Lemma consume_from_stop : forall o seen rest, wants o seen = false -> consume_from o seen rest = seen.
+Proof. intros o seen [|x r] H; simpl; rewrite H; reflexivity. Qed.
+
+Lemma consume_from_nil : forall o seen, consume_from o seen [] = seen.
+Proof. intros. simpl. destruct (wants o seen); reflexivity. Qed.
+
+Lemma consume_from_step : forall o seen x r,
+  wants o seen = true -> consume_from o seen (x :: r) = consume_from o (seen ++ [x]) r.
+Proof. intros. simpl. rewrite H. reflexivity. Qed.
+
+Lemma consume_from_prefix : forall o rest seen,
+  exists k, consume_from o seen rest = seen ++ firstn k rest.
+Proof.
+  induction rest as [|x r IH]; intros seen.
+  - exists O. rewrite consume_from_nil, app_nil_r. reflexivity.
+  - destruct (wants o seen) eqn:W.
+    + rewrite consume_from_step by exact W. destruct (IH (seen ++ [x])) as [k Hk].
+      exists (S k). rewrite Hk, <- app_assoc. reflexivity.
+    + exists O. rewrite consume_from_stop by exact W. rewrite app_nil_r. reflexivity.
+Qed.
+
+Lemma consume_prefix : forall o l, is_prefix (consume o l) l.
+Proof.
+  intros o l. unfold is_prefix, consume. destruct (consume_from_prefix o l []) as [k Hk].
+  rewrite Hk. cbn [app]. rewrite firstn_length.
+  destruct (Nat.le_ge_cases k (length l)).
+  - rewrite Nat.min_l by lia. reflexivity.
+  - rewrite Nat.min_r by lia. rewrite firstn_all. rewrite firstn_all2 by lia. reflexivity.
+Qed.
+
+Lemma consume_from_all : forall o, (forall seen, wants o seen = true) ->
+  forall rest seen, consume_from o seen rest = seen ++ rest.
+Proof.
+  intros o W. induction rest as [|x r IH]; intros seen.
+  - rewrite consume_from_nil, app_nil_r. reflexivity.
+  - rewrite consume_from_step by apply W. rewrite IH, <- app_assoc. reflexivity.
+Qed.
+
+Lemma consume_from_take : forall k rest seen, (length seen <= k)%nat ->
+  consume_from (OTake k) seen rest = seen ++ firstn (k - length seen) rest.
+Proof.
+  intros k. induction rest as [|x r IH]; intros seen H.
+  - rewrite consume_from_nil, firstn_nil, app_nil_r. reflexivity.
+  - destruct (Nat.eq_dec (length seen) k) as [E|E].
+    + rewrite consume_from_stop.
+      * rewrite E, Nat.sub_diag. cbn [firstn]. rewrite app_nil_r. reflexivity.
+      * cbn [wants]. apply Nat.ltb_ge. lia.
+    + rewrite consume_from_step by (cbn [wants]; apply Nat.ltb_lt; lia).
+      rewrite IH by (rewrite app_length; cbn [length]; lia).
+      rewrite app_length. cbn [length].
+      replace (k - length seen)%nat with (S (k - (length seen + 1)))%nat by lia.
+      cbn [firstn]. rewrite <- app_assoc. reflexivity.
+Qed.
+
+Lemma consume_from_get : forall k rest seen, (length seen <= S k)%nat ->
+  consume_from (OGet k) seen rest = seen ++ firstn (S k - length seen) rest.
+Proof.
+  intros k. induction rest as [|x r IH]; intros seen H.
+  - rewrite consume_from_nil, firstn_nil, app_nil_r. reflexivity.
+  - destruct (Nat.eq_dec (length seen) (S k)) as [E|E].
+    + rewrite consume_from_stop.
+      * rewrite E, Nat.sub_diag. cbn [firstn]. rewrite app_nil_r. reflexivity.
+      * cbn [wants]. apply Nat.ltb_ge. lia.
+    + rewrite consume_from_step by (cbn [wants]; apply Nat.ltb_lt; lia).
+      rewrite IH by (rewrite app_length; cbn [length]; lia).
+      rewrite app_length. cbn [length].
+      replace (S k - length seen)%nat with (S (S k - (length seen + 1)))%nat by lia.
+      cbn [firstn]. rewrite <- app_assoc. reflexivity.
+Qed.
+
+Lemma last_opt_firstn_S : forall (l : list Z) k v,
+  nth_error l k = Some v -> last_opt (firstn (S k) l) = Some v.
+Proof. intros l k v H. rewrite (firstn_snoc_nth _ _ _ H). apply last_opt_snoc. Qed.
+
+(* what a finished consumer returns when run over the whole sequence = the uncached result *)
+Lemma result_consume_spec : forall o l, o <> OCount -> result o (consume o l) = spec_result o l.
+Proof.
+  intros o l Hc. destruct o; try reflexivity; try congruence; unfold consume.
+  - rewrite consume_from_all by reflexivity. reflexivity.
+  - rewrite consume_from_take by (cbn [length]; lia). cbn [length app result spec_result].
+    rewrite Nat.sub_0_r. reflexivity.
+  - rewrite consume_from_get by (cbn [length]; lia). cbn [length app result spec_result].
+    rewrite Nat.sub_0_r. destruct (nth_error l k) as [v|] eqn:E.
+    + rewrite firstn_length_le by (apply nth_error_some_lt in E; lia).
+      rewrite Nat.eqb_refl. rewrite (last_opt_firstn_S _ _ _ E). reflexivity.
+    + apply nth_error_None in E. rewrite firstn_all2 by lia.
+      destruct (length l =? S k)%nat eqn:E2; [apply Nat.eqb_eq in E2; lia | reflexivity].
+Qed.
+
+(* ------------------------------------------------------------------------------------------ *)
+(* the invariant *)
+
+Definition in_crit (p : pc) : bool :=
+  match p with
+  | PTryO | PTestC | PBreakC | PTryI | PFor _ | PAdvance _ | PGenPub _ | PExcept | PSetGen
+  | PSetC | PBreakE | PRelease _ | PExcX | PRelX => true
+  | _ => false
+  end.
+
+Section Inv.
+Variable seq : list Z.
+Let N := length seq.
+
+Definition shared_inv (s : shared) : Prop :=
+  cache s = firstn (gpos s) seq /\
+  (gpos s <= N)%nat /\
+  (gdone s = true -> gpos s = N /\ lenp s = Some N) /\
+  (forall n, lenp s = Some n -> gdone s = true) /\
+  (sgen s = false -> gdone s = true) /\
+  (complete s = true -> gdone s = true).
+
+Definition gd (s : shared) : Prop := gdone s = true.
+
+(* what a finished operation may have returned: the uncached result; for `x in rule` answered by the
+   query's own fast path it is list membership (equal to the uncached early-exit scan when seq is
+   strictly increasing, see contains_fast_ok) *)
+Definition done_ok (o : op) (r : outcome) : Prop :=
+  r = spec_result o seq \/
+  exists x, o = OContains x /\ r = Ret [if existsb (Z.eqb x) seq then 1 else 0].
+
+(* the consumer has received a prefix of seq and, continuing from here over the rest of seq, ends
+   exactly where a run over an uncached rule ends *)
+Definition pre (th : thread) : Prop :=
+  is_prefix (t_out th) seq /\
+  consume_from (t_op th) (t_out th) (skipn (length (t_out th)) seq) = consume (t_op th) seq.
+
+Definition live (th : thread) : Prop :=
+  pre th /\ length (t_out th) = t_i th /\ wants (t_op th) (t_out th) = true.
+
+Definition fresh (th : thread) : Prop := t_out th = [] /\ t_i th = O.
+
+Definition thread_inv (s : shared) (th : thread) : Prop :=
+  is_prefix (t_out th) seq /\
+  match t_pc th with
+  | PQTest | PIterTest => fresh th
+  | PLenTest => fresh th /\ t_op th = OCount
+  | PInit | PGetGen => fresh th /\ wants (t_op th) [] = true
+  | PGetCache | PGetAcq | PGetRel =>
+      fresh th /\ wants (t_op th) [] = true /\ (t_gen th = false -> gd s)
+  | PWhile | PIfLen | PAcquire | PTryO | PTestC | PTryI =>
+      live th /\ (t_i th <= length (cache s))%nat /\ (t_gen th = false -> gd s)
+  | PBreakC | PBreakE | PRelease true | PExcept | PGenPub _ | PSetGen | PSetC =>
+      live th /\ (t_i th <= length (cache s))%nat /\ gd s
+  | PFor j => live th /\ (t_i th + j <= length (cache s))%nat /\ (t_gen th = false -> gd s)
+  | PAdvance j =>
+      live th /\ (t_i th + j <= length (cache s))%nat /\ (j < batch)%nat /\ (t_gen th = false -> gd s)
+  | PRelease false | PYield =>
+      live th /\ (t_i th < length (cache s))%nat /\ (t_gen th = false -> gd s)
+  | PIncr =>
+      pre th /\ length (t_out th) = S (t_i th) /\ wants (t_op th) (t_out th) = true /\
+      (S (t_i th) <= length (cache s))%nat /\ (t_gen th = false -> gd s)
+  | PTWhile => live th /\ gd s /\ (t_i th <= N)%nat
+  | PTYield => live th /\ gd s /\ (t_i th < N)%nat
+  | PTIncr =>
+      pre th /\ length (t_out th) = S (t_i th) /\ wants (t_op th) (t_out th) = true /\
+      gd s /\ (S (t_i th) <= N)%nat
+  | PRetLen => t_op th = OCount /\ gd s
+  | PExcX | PRelX => False    (* only reachable when the generator raises *)
+  | PDone => exists r, t_res th = Some r /\ done_ok (t_op th) r
+  end.
+
+Definition lock_inv (st : state) : Prop :=
+  (forall t th, nth_error (thr st) t = Some th -> in_crit (t_pc th) = true -> lock (sh st) = Some t) /\
+  (forall t, lock (sh st) = Some t ->
+             exists th, nth_error (thr st) t = Some th /\ in_crit (t_pc th) = true).
+
+Definition Inv (st : state) : Prop :=
+  shared_inv (sh st) /\ lock_inv st /\
+  (forall t th, nth_error (thr st) t = Some th -> thread_inv (sh st) th).
+
+(* the shared state only grows *)
+Definition sh_le (s s' : shared) : Prop :=
+  (length (cache s) <= length (cache s'))%nat /\ (gdone s = true -> gdone s' = true).
+
+Lemma sh_le_refl : forall s, sh_le s s.
+Proof. intros; split; auto. Qed.
+
+Lemma thread_inv_mono : forall s s' th, sh_le s s' -> thread_inv s th -> thread_inv s' th.
+Proof.
+  intros s s' th [Hl Hg] [Hp H]. split; [exact Hp|]. unfold gd in *.
+  destruct (t_pc th); try exact H;
+    try (match goal with b : bool |- _ => destruct b end);
+    intuition (auto; try lia).
+Qed.
+
+(* ---- facts about a shared state satisfying the invariant *)
+
+Lemma si_len_cache : forall s, shared_inv s -> length (cache s) = gpos s.
+Proof.
+  intros s (Hc & Hp & _). rewrite Hc. apply firstn_length_le. exact Hp.
+Qed.
+
+Lemma si_done_cache : forall s, shared_inv s -> gd s -> cache s = seq /\ lenp s = Some N.
+Proof.
+  intros s HS Hg. pose proof HS as (Hc & Hp & Hd & _). destruct (Hd Hg) as [E1 E2].
+  split; [|exact E2]. rewrite Hc, E1. apply firstn_all.
+Qed.
+
+Lemma si_nth_cache : forall s i, shared_inv s -> (i < length (cache s))%nat ->
+  exists v, nth_error (cache s) i = Some v /\ nth_error seq i = Some v.
+Proof.
+  intros s i HS Hi. pose proof (si_len_cache s HS) as Hl. destruct HS as (Hc & Hp & _).
+  destruct (nth_error_lt_some seq i) as [v Hv]; [fold N; lia|].
+  exists v. split; [|exact Hv]. rewrite Hc. rewrite nth_error_firstn_lt by lia. exact Hv.
+Qed.
+
+Lemma si_complete_gd : forall s, shared_inv s -> complete s = true -> gd s.
+Proof. intros s (_ & _ & _ & _ & _ & H) C. exact (H C). Qed.
+Lemma si_lenp_gd : forall s n, shared_inv s -> lenp s = Some n -> gd s.
+Proof. intros s n (_ & _ & _ & H & _) L. exact (H n L). Qed.
+Lemma si_sgen_gd : forall s, shared_inv s -> sgen s = false -> gd s.
+Proof. intros s (_ & _ & _ & _ & H & _) L. exact (H L). Qed.
+Lemma si_gpos_le : forall s, shared_inv s -> (gpos s <= N)%nat.
+Proof. intros s (_ & H & _). exact H. Qed.
+
+(* ---- the consumer side of a yield *)
+
+Lemma pre_snoc : forall th v,
+  pre th -> wants (t_op th) (t_out th) = true -> nth_error seq (length (t_out th)) = Some v ->
+  forall p i g r, pre (Th (t_op th) p i g (t_out th ++ [v]) r).
+Proof.
+  intros th v [Hp Hc] W Hv p i g r. unfold pre, is_prefix in *. cbn [t_op t_out].
+  rewrite app_length. cbn [length]. rewrite Nat.add_1_r. split.
+  - rewrite (firstn_snoc_nth _ _ _ Hv). rewrite <- Hp. reflexivity.
+  - rewrite <- Hc. rewrite (skipn_nth _ _ _ Hv). rewrite consume_from_step by exact W. reflexivity.
+Qed.
+
+Lemma pre_done_out : forall th,
+  pre th -> (wants (t_op th) (t_out th) = false \/ (N <= length (t_out th))%nat) ->
+  t_out th = consume (t_op th) seq.
+Proof.
+  intros th [Hp Hc] [W|L]; rewrite <- Hc.
+  - rewrite consume_from_stop by exact W. reflexivity.
+  - rewrite skipn_all2 by (fold N; lia). rewrite consume_from_nil. reflexivity.
+Qed.
+
+Lemma wants_count : forall l, wants OCount l = true.
+Proof. reflexivity. Qed.
+
+Lemma prefix_snoc : forall (out : list Z) v,
+  is_prefix out seq -> nth_error seq (length out) = Some v -> is_prefix (out ++ [v]) seq.
+Proof.
+  unfold is_prefix. intros out v Hp Hv. rewrite app_length. cbn [length]. rewrite Nat.add_1_r.
+  rewrite (firstn_snoc_nth _ _ _ Hv). rewrite <- Hp. reflexivity.
+Qed.
+
+(* finish: the consumer stops having received exactly what it receives from an uncached rule *)
+Lemma finish_ok : forall s th,
+  shared_inv s -> gd s \/ t_op th <> OCount ->
+  is_prefix (t_out th) seq -> t_out th = consume (t_op th) seq ->
+  thread_inv s (finish th).
+Proof.
+  intros s th HS Hg Hp He. unfold finish. destruct (t_op th) eqn:Eo;
+    try (split; [exact Hp|]; cbn [t_pc t_res t_op]; eexists; split; [reflexivity|];
+         left; rewrite He; apply result_consume_spec; congruence).
+  split; [exact Hp|]. cbn [set_pc t_pc t_op]. split; [exact Eo|]. destruct Hg; [assumption|congruence].
+Qed.
+
+(* `yield cache[i]` *)
+Lemma do_yield_ok : forall s th nxt v,
+  shared_inv s -> live th ->
+  nth_error (cache s) (t_i th) = Some v -> nth_error seq (t_i th) = Some v ->
+  (forall th', t_pc th' = nxt -> t_op th' = t_op th -> t_i th' = t_i th -> t_gen th' = t_gen th ->
+               pre th' -> length (t_out th') = S (t_i th) -> wants (t_op th') (t_out th') = true ->
+               is_prefix (t_out th') seq -> thread_inv s th') ->
+  thread_inv s (do_yield s th nxt).
+Proof.
+  intros s th nxt v HS (Hpre & Hlen & W) Hc Hs K. unfold do_yield. rewrite Hc.
+  assert (Hv : nth_error seq (length (t_out th)) = Some v) by (rewrite Hlen; exact Hs).
+  pose proof (pre_snoc th v Hpre W Hv nxt (t_i th) (t_gen th) (t_res th)) as Hpre'.
+  pose proof (prefix_snoc _ _ (proj1 Hpre) Hv) as Hpf.
+  destruct (wants (t_op th) (t_out th ++ [v])) eqn:W'.
+  - apply K; cbn [t_pc t_op t_i t_gen t_out]; auto.
+    rewrite app_length. cbn [length]. lia.
+  - apply finish_ok; cbn [t_op t_out]; auto.
+    + right. intro E. rewrite E in W'. discriminate.
+    + apply (pre_done_out _ Hpre'). left. exact W'.
+Qed.
+
+(* the consumer runs over the complete cache list *)
+Lemma fast_ok : forall s th, shared_inv s -> gd s -> thread_inv s (fast s th).
+Proof.
+  intros s th HS Hg. unfold fast. destruct (si_done_cache s HS Hg) as [Ec _].
+  apply finish_ok; cbn [t_op t_out]; auto; rewrite Ec.
+  - apply consume_prefix.
+  - reflexivity.
+Qed.
+
+Lemma fastq_ok : forall s th, shared_inv s -> gd s -> is_prefix (t_out th) seq -> thread_inv s (fastq s th).
+Proof.
+  intros s th HS Hg Hp. unfold fastq. destruct (t_op th) eqn:Eo; try (apply fast_ok; assumption).
+  split; [exact Hp|]. cbn [t_pc t_res t_op]. eexists. split; [reflexivity|].
+  right. exists x. split; [reflexivity|]. destruct (si_done_cache s HS Hg) as [Ec _]. rewrite Ec. reflexivity.
+Qed.
+
+(* ------------------------------------------------------------------------------------------ *)
+(* one line of one thread preserves the invariant *)
+
+Ltac projs := cbn [t_pc t_op t_i t_gen t_out t_res set_pc cache complete sgen gpos gdone lock lenp] in *.
+Ltac stepinv H := let E1 := fresh in let E2 := fresh in injection H as E1 E2; symmetry in E1; symmetry in E2; subst.
+Ltac same HS := split; [exact HS | split; [apply sh_le_refl | ]].
+
+Lemma step_thread_ok : forall s t th s' th',
+  shared_inv s -> thread_inv s th ->
+  step_thread seq true false s t th = Some (s', th') ->
+  shared_inv s' /\ sh_le s s' /\ thread_inv s' th'.
+Proof.
+  intros s t th s' th' HS [Hpf HT] Hstep.
+  pose proof (si_len_cache s HS) as Hlen. pose proof (si_gpos_le s HS) as Hp.
+  unfold step_thread in Hstep. destruct th as [o p i g out res]. projs.
+  destruct p; projs.
+  - (* PQTest *)
+    stepinv Hstep. same HS. destruct (complete s) eqn:C.
+    + apply fastq_ok; auto. apply si_complete_gd; assumption.
+    + split; [exact Hpf|]. projs. exact HT.
+  - (* PLenTest *)
+    stepinv Hstep. same HS. destruct HT as [HF Ho]. projs. subst o.
+    destruct (lenp s) eqn:L; (split; [exact Hpf|]); projs.
+    + split; [reflexivity|]. apply (si_lenp_gd _ _ HS L).
+    + exact HF.
+  - (* PIterTest *)
+    stepinv Hstep. same HS. destruct HT as [Ho Hi]. projs. subst out i.
+    destruct (complete s) eqn:C.
+    + apply fast_ok; auto. apply si_complete_gd; assumption.
+    + destruct (wants o []) eqn:W.
+      * split; [exact Hpf|]. projs. split; [split; reflexivity | exact W].
+      * apply finish_ok; projs; auto.
+        -- right. intro E. subst o. discriminate.
+        -- unfold consume. rewrite consume_from_stop by exact W. reflexivity.
+  - (* PInit *)
+    stepinv Hstep. same HS. split; [exact Hpf|]. projs. destruct HT as [[Ho Hi] W]. projs.
+    split; [split; [exact Ho | reflexivity] | exact W].
+  - (* PGetGen *)
+    stepinv Hstep. same HS. split; [exact Hpf|]. projs. destruct HT as [HF W].
+    split; [exact HF | split; [exact W | apply si_sgen_gd; exact HS]].
+  - (* PGetCache *) stepinv Hstep. same HS. split; [exact Hpf|]. projs. exact HT.
+  - (* PGetAcq *) stepinv Hstep. same HS. split; [exact Hpf|]. projs. exact HT.
+  - (* PGetRel *)
+    stepinv Hstep. same HS. split; [exact Hpf|]. projs. destruct HT as ([Ho Hi] & W & Hg). projs. subst out i.
+    split; [|split; [lia | exact Hg]].
+    split; [|split; [reflexivity | exact W]].
+    split; [exact Hpf | reflexivity].
+  - (* PWhile *)
+    stepinv Hstep. same HS. split; [exact Hpf|]. destruct HT as (HL & Hi & Hg). projs.
+    destruct g; projs.
+    + split; [exact HL | split; [exact Hi | exact Hg]].
+    + split; [exact HL | split; [apply Hg; reflexivity | fold N in Hp; lia]].
+  - (* PIfLen *)
+    stepinv Hstep. same HS. split; [exact Hpf|]. destruct HT as (HL & Hi & Hg). projs.
+    destruct (i =? length (cache s))%nat eqn:E; projs.
+    + split; [exact HL | split; [exact Hi | exact Hg]].
+    + apply Nat.eqb_neq in E. split; [exact HL | split; [lia | exact Hg]].
+  - (* PAcquire *)
+    destruct (lock s); [discriminate|]. stepinv Hstep.
+    split; [unfold shared_inv in *; projs; exact HS | split; [split; projs; auto |]].
+    split; [exact Hpf|]. projs. exact HT.
+  - (* PTryO *) stepinv Hstep. same HS. split; [exact Hpf|]. projs. exact HT.
+  - (* PTestC *)
+    stepinv Hstep. same HS. split; [exact Hpf|]. destruct HT as (HL & Hi & Hg). projs.
+    destruct (complete s) eqn:C; projs.
+    + split; [exact HL | split; [exact Hi | apply si_complete_gd; assumption]].
+    + split; [exact HL | split; [exact Hi | exact Hg]].
+  - (* PBreakC *) stepinv Hstep. same HS. split; [exact Hpf|]. projs. exact HT.
+  - (* PTryI *)
+    stepinv Hstep. same HS. split; [exact Hpf|]. destruct HT as (HL & Hi & Hg). projs.
+    split; [exact HL | split; [lia | exact Hg]].
+  - (* PFor j *)
+    stepinv Hstep. same HS. split; [exact Hpf|]. destruct HT as (HL & Hi & Hg). projs.
+    destruct (j <? batch)%nat eqn:E; projs.
+    + apply Nat.ltb_lt in E. split; [exact HL | split; [exact Hi | split; [exact E | exact Hg]]].
+    + apply Nat.ltb_ge in E. unfold batch in E. split; [exact HL | split; [lia | exact Hg]].
+  - (* PAdvance j *)
+    destruct HT as (HL & Hi & Hj & Hg). projs.
+    pose proof HS as (Hc & _ & Hd & Hlp & Hsg & Hcm).
+    destruct (gdone s) eqn:G.
+    + stepinv Hstep. same HS. split; [exact Hpf|]. projs.
+      split; [exact HL | split; [lia | exact G]].
+    + destruct (nth_error seq (gpos s)) as [v|] eqn:E; stepinv Hstep.
+      * assert (HS' : shared_inv (Sh (cache s ++ [v]) (complete s) (sgen s) (S (gpos s)) false (lock s) (lenp s))).
+        { unfold shared_inv. projs. repeat split.
+          - rewrite (firstn_snoc_nth _ _ _ E), <- Hc. reflexivity.
+          - apply nth_error_some_lt in E. fold N in E. lia.
+          - discriminate.
+          - discriminate.
+          - exact Hlp.
+          - exact Hsg.
+          - exact Hcm. }
+        split; [exact HS'|]. split.
+        { split; projs; [rewrite app_length; lia | intros X; rewrite X in G; discriminate]. }
+        split; [exact Hpf|]. projs. rewrite app_length. cbn [length].
+        split; [exact HL | split; [lia | intros X; specialize (Hg X); unfold gd in Hg; rewrite G in Hg; discriminate]].
+      * apply nth_error_None in E. fold N in E.
+        assert (HS' : shared_inv (Sh (cache s) (complete s) (sgen s) (gpos s) true (lock s) (Some (gpos s)))).
+        { unfold shared_inv. projs. repeat split; auto; try lia. f_equal. lia. }
+        split; [exact HS'|]. split.
+        { split; projs; auto. }
+        split; [exact Hpf|]. projs. split; [exact HL | split; [lia | reflexivity]].
+  - (* PGenPub *) stepinv Hstep. same HS. split; [exact Hpf|]. projs. exact HT.
+  - (* PExcept *) stepinv Hstep. same HS. split; [exact Hpf|]. projs. exact HT.
+  - (* PSetGen *)
+    stepinv Hstep. destruct HT as (HL & Hi & Hg). projs. unfold gd in Hg.
+    pose proof HS as (Hc & _ & Hd & Hlp & Hsg & Hcm).
+    split; [unfold shared_inv; projs; repeat split; auto; apply Hd; exact Hg|].
+    split; [split; projs; auto|].
+    split; [exact Hpf|]. projs. split; [exact HL | split; [exact Hi | exact Hg]].
+  - (* PSetC *)
+    stepinv Hstep. destruct HT as (HL & Hi & Hg). projs. unfold gd in Hg.
+    pose proof HS as (Hc & _ & Hd & Hlp & Hsg & Hcm).
+    split; [unfold shared_inv; projs; repeat split; auto; apply Hd; exact Hg|].
+    split; [split; projs; auto|].
+    split; [exact Hpf|]. projs. split; [exact HL | split; [exact Hi | exact Hg]].
+  - (* PBreakE *) stepinv Hstep. same HS. split; [exact Hpf|]. projs. exact HT.
+  - (* PRelease *)
+    stepinv Hstep.
+    split; [unfold shared_inv in *; projs; exact HS | split; [split; projs; auto |]].
+    split; [exact Hpf|]. destruct brk; projs; destruct HT as (HL & Hi & Hg); projs.
+    + split; [exact HL | split; [exact Hg | fold N in Hp; lia]].
+    + split; [exact HL | split; [exact Hi | exact Hg]].
+  - (* PExcX *) destruct HT.
+  - (* PRelX *) destruct HT.
+  - (* PYield *)
+    stepinv Hstep. same HS. destruct HT as (HL & Hi & Hg). projs.
+    destruct (si_nth_cache s i HS Hi) as (v & Hv1 & Hv2).
+    apply (do_yield_ok s _ PIncr v); projs; auto.
+    intros th' E1 E2 E3 E4 P1 P2 P3 P4. split; [exact P4|]. rewrite E1. rewrite E3, E4.
+    split; [exact P1 | split; [exact P2 | split; [exact P3 | split; [lia | exact Hg]]]].
+  - (* PIncr *)
+    stepinv Hstep. same HS. split; [exact Hpf|]. projs.
+    destruct HT as (HP & Hl & W & Hi & Hg). projs.
+    split; [split; [exact HP | split; [exact Hl | exact W]] | split; [exact Hi | exact Hg]].
+  - (* PTWhile *)
+    destruct HT as (HL & Hg & Hi). projs.
+    destruct (si_done_cache s HS Hg) as [Ec El]. rewrite El in Hstep. stepinv Hstep. same HS.
+    destruct (i <? N)%nat eqn:E.
+    + apply Nat.ltb_lt in E. split; [exact Hpf|]. projs. split; [exact HL | split; [exact Hg | exact E]].
+    + apply Nat.ltb_ge in E. apply finish_ok; projs; auto.
+      apply (pre_done_out _ (proj1 HL)). right. destruct HL as (_ & Hl & _). projs. lia.
+  - (* PTYield *)
+    stepinv Hstep. same HS. destruct HT as (HL & Hg & Hi). projs.
+    destruct (si_done_cache s HS Hg) as [Ec El].
+    destruct (nth_error_lt_some seq i Hi) as [v Hv].
+    apply (do_yield_ok s _ PTIncr v); projs; auto.
+    { rewrite Ec. exact Hv. }
+    intros th' E1 E2 E3 E4 P1 P2 P3 P4. split; [exact P4|]. rewrite E1. rewrite E3.
+    split; [exact P1 | split; [exact P2 | split; [exact P3 | split; [exact Hg | lia]]]].
+  - (* PTIncr *)
+    stepinv Hstep. same HS. split; [exact Hpf|]. projs.
+    destruct HT as (HP & Hl & W & Hg & Hi). projs.
+    split; [split; [exact HP | split; [exact Hl | exact W]] | split; [exact Hg | exact Hi]].
+  - (* PRetLen *)
+    stepinv Hstep. same HS. split; [exact Hpf|]. projs. destruct HT as [Ho Hg]. projs. subst o.
+    destruct (si_done_cache s HS Hg) as [Ec El]. rewrite El.
+    eexists. split; [reflexivity|]. left. reflexivity.
+  - (* PDone *) discriminate.
+Qed.
+
+(* ---- the lock: who may change it, and how it relates to the program counter *)
+
+Lemma step_thread_lock : forall s t th s' th',
+  step_thread seq true false s t th = Some (s', th') ->
+  (lock s' = lock s /\ in_crit (t_pc th') = in_crit (t_pc th)) \/
+  (t_pc th = PAcquire /\ lock s = None /\ lock s' = Some t /\ in_crit (t_pc th') = true) \/
+  (in_crit (t_pc th) = true /\ lock s' = None /\ in_crit (t_pc th') = false).
+Proof.
+  intros s t th s' th' Hstep. unfold step_thread in Hstep.
+  destruct th as [o p i g out res]. projs.
+  assert (Hfin : forall x, in_crit (t_pc (finish x)) = false).
+  { intros x. unfold finish. destruct (t_op x); reflexivity. }
+  assert (Hy : forall x nxt, in_crit nxt = false -> in_crit (t_pc (do_yield s x nxt)) = false).
+  { intros x nxt Hn. unfold do_yield. destruct (nth_error (cache s) (t_i x)) as [z|]; [|reflexivity].
+    destruct (wants (t_op x) (t_out x ++ [z])); [exact Hn | apply Hfin]. }
+  destruct p; projs;
+    try (stepinv Hstep; left; split; [reflexivity|]; projs;
+         repeat match goal with
+                | |- context [if ?b then _ else _] => destruct b
+                | |- context [match ?b with Some _ => _ | None => _ end] => destruct b
+                end; projs;
+         first [reflexivity | apply Hfin | apply Hy; reflexivity
+               | unfold fastq, fast; projs; destruct o; projs; first [reflexivity | apply Hfin]]).
+  - (* PAcquire *)
+    destruct (lock s) eqn:L; [discriminate|]. stepinv Hstep. right. left. projs. auto.
+  - (* PAdvance *)
+    destruct (gdone s); [stepinv Hstep; left; split; reflexivity|].
+    destruct (nth_error seq (gpos s)); stepinv Hstep; left; split; reflexivity.
+  - (* PRelease *)
+    stepinv Hstep. right. right. projs. destruct brk; auto.
+  - (* PRelX *)
+    stepinv Hstep. right. right. projs. auto.
+  - (* PTWhile *)
+    destruct (lenp s); stepinv Hstep; left; (split; [reflexivity|]); projs; [|reflexivity].
+    destruct (i <? n)%nat; [reflexivity | apply Hfin].
+  - discriminate.
+Qed.
+
+Lemma nth_error_upd_same : forall (A : Type) (l : list A) t x y,
+  nth_error l t = Some y -> nth_error (upd l t x) t = Some x.
+Proof.
+  induction l as [|a l IH]; intros [|t] x y H; try discriminate; cbn [upd nth_error] in *; eauto.
+Qed.
+
+Lemma nth_error_upd_other : forall (A : Type) (l : list A) t t' x,
+  t <> t' -> nth_error (upd l t x) t' = nth_error l t'.
+Proof.
+  induction l as [|a l IH]; intros [|t] [|t'] x H; cbn [upd nth_error]; try reflexivity; try congruence.
+  apply IH. congruence.
+Qed.
+
+Lemma length_upd : forall (A : Type) (l : list A) t x, length (upd l t x) = length l.
+Proof. induction l as [|a l IH]; intros [|t] x; cbn [upd length]; auto. Qed.
+
+Theorem step_inv : forall st t st', Inv st -> step seq true false st t = Some st' -> Inv st'.
+Proof.
+  intros st t st' (HS & (HL1 & HL2) & HT) Hstep. unfold step in Hstep.
+  destruct (nth_error (thr st) t) as [th|] eqn:Et; [|discriminate].
+  destruct (step_thread seq true false (sh st) t th) as [[s' th']|] eqn:Es; [|discriminate].
+  injection Hstep as <-. cbn [sh thr].
+  destruct (step_thread_ok _ _ _ _ _ HS (HT _ _ Et) Es) as (HS' & Hle & HT').
+  pose proof (step_thread_lock _ _ _ _ _ Es) as HK.
+  split; [exact HS'|]. split.
+  - (* lock_inv *)
+    unfold lock_inv. cbn [sh thr]. split.
+    + intros u thu Hu Hcu. destruct (Nat.eq_dec t u) as [Eq|Ne]; [subst u|].
+      * rewrite (nth_error_upd_same _ _ _ _ _ Et) in Hu. injection Hu as <-.
+        destruct HK as [[E1 E2]|[(E1 & E2 & E3 & E4)|(E1 & E2 & E3)]].
+        -- rewrite E1. apply (HL1 _ _ Et). rewrite <- E2. exact Hcu.
+        -- exact E3.
+        -- congruence.
+      * rewrite nth_error_upd_other in Hu by exact Ne.
+        pose proof (HL1 _ _ Hu Hcu) as Lu.
+        destruct HK as [[E1 E2]|[(E1 & E2 & E3 & E4)|(E1 & E2 & E3)]].
+        -- rewrite E1. exact Lu.
+        -- congruence.
+        -- pose proof (HL1 _ _ Et E1). congruence.
+    + intros u Lu. destruct HK as [[E1 E2]|[(E1 & E2 & E3 & E4)|(E1 & E2 & E3)]].
+      * rewrite E1 in Lu. destruct (HL2 _ Lu) as (thu & Hu & Hcu).
+        destruct (Nat.eq_dec t u) as [Eq|Ne]; [subst u|].
+        -- exists th'. split; [apply (nth_error_upd_same _ _ _ _ _ Et)|].
+           rewrite Et in Hu. injection Hu as <-. congruence.
+        -- exists thu. split; [rewrite nth_error_upd_other by exact Ne; exact Hu | exact Hcu].
+      * rewrite E3 in Lu. injection Lu as <-. exists th'.
+        split; [apply (nth_error_upd_same _ _ _ _ _ Et) | exact E4].
+      * congruence.
+  - cbn [sh thr]. intros u thu Hu. destruct (Nat.eq_dec t u) as [Eq|Ne]; [subst u|].
+    + rewrite (nth_error_upd_same _ _ _ _ _ Et) in Hu. injection Hu as <-. exact HT'.
+    + rewrite nth_error_upd_other in Hu by exact Ne.
+      apply (thread_inv_mono _ _ _ Hle). apply (HT _ _ Hu).
+Qed.
+
+Lemma inv_init : forall ops, Inv (init ops).
+Proof.
+  intros ops. unfold Inv, lock_inv, init. cbn [sh thr]. split; [|split].
+  - unfold shared_inv, init_shared. projs. repeat split; try discriminate; try lia.
+  - split.
+    + intros t th H Hc. rewrite nth_error_map in H. destruct (nth_error ops t); [|discriminate].
+      injection H as <-. unfold init_thread in Hc. projs. destruct o; discriminate.
+    + intros t H. discriminate.
+  - intros t th H. rewrite nth_error_map in H. destruct (nth_error ops t) as [o|]; [|discriminate].
+    injection H as <-. unfold init_thread. split; [reflexivity|]. projs.
+    destruct o; cbn [start_pc]; repeat split.
+Qed.
+
+(* the invariant holds in every state reachable under ANY schedule *)
+Theorem inv_exec : forall sched st, Inv st -> Inv (exec seq true false sched st).
+Proof.
+  induction sched as [|t r IH]; intros st H; cbn [exec]; [exact H|].
+  apply IH. destruct (step seq true false st t) eqn:E; [eapply step_inv; eauto | exact H].
+Qed.
+
+Theorem inv_reachable : forall ops sched, Inv (exec seq true false sched (init ops)).
+Proof. intros. apply inv_exec, inv_init. Qed.
+
+(* ------------------------------------------------------------------------------------------ *)
+(* consequences *)
+
+Definition reach (ops : list op) (sched : list nat) : state := exec seq true false sched (init ops).
+
+(* every thread has received a prefix of what the uncached rule yields; no operation ever raised
+   or returned anything but the uncached answer *)
+Theorem observes_uncached : forall ops sched t th,
+  nth_error (thr (reach ops sched)) t = Some th ->
+  is_prefix (t_out th) seq /\
+  (forall r, t_res th = Some r -> t_pc th = PDone -> done_ok (t_op th) r) /\
+  (t_pc th = PDone -> exists r, t_res th = Some r /\ done_ok (t_op th) r).
+Proof.
+  intros ops sched t th H. destruct (inv_reachable ops sched) as (_ & _ & HT).
+  destruct (HT _ _ H) as [Hp Hpc]. split; [exact Hp|]. split.
+  - intros r Hr E. rewrite E in Hpc. destruct Hpc as (r' & Hr' & Hok). congruence.
+  - intros E. rewrite E in Hpc. exact Hpc.
+Qed.
+
+(* the cache is always a prefix of seq, complete means all of it, and the lock is held exactly by a
+   thread inside the critical section *)
+Theorem cache_inv : forall ops sched,
+  let s := reach ops sched in
+  cache (sh s) = firstn (length (cache (sh s))) seq /\
+  (complete (sh s) = true -> cache (sh s) = seq /\ lenp (sh s) = Some (length seq)) /\
+  (forall t th, nth_error (thr s) t = Some th -> (in_crit (t_pc th) = true <-> lock (sh s) = Some t)).
+Proof.
+  intros ops sched s. destruct (inv_reachable ops sched) as (HS & (HL1 & HL2) & HT). fold (reach ops sched) in *. fold s in HS, HL1, HL2, HT.
+  split; [|split].
+  - rewrite (si_len_cache _ HS). destruct HS as (Hc & _). exact Hc.
+  - intros C. apply (si_done_cache _ HS). apply (si_complete_gd _ HS C).
+  - intros t th H. split.
+    + apply (HL1 _ _ H).
+    + intros L. destruct (HL2 _ L) as (th2 & H2 & Hc). congruence.
+Qed.
+
+Lemma all_done_false : forall st, all_done st = false ->
+  exists t th, nth_error (thr st) t = Some th /\ t_pc th <> PDone.
+Proof.
+  intros st H. unfold all_done in H.
+  assert (G : forall l, forallb (fun th => match t_pc th with PDone => true | _ => false end) l = false ->
+               exists t th, nth_error l t = Some th /\ t_pc th <> PDone).
+  { induction l as [|a l IH]; intros Hf; [discriminate|]. cbn [forallb] in Hf.
+    destruct (t_pc a) eqn:E; cbn [andb] in Hf;
+      try (exists O, a; split; [reflexivity | congruence]).
+    destruct (IH Hf) as (t & th & H1 & H2). exists (S t), th. split; assumption. }
+  apply G. exact H.
+Qed.
+
+Lemma step_thread_enabled : forall s t th,
+  t_pc th <> PDone -> (t_pc th = PAcquire -> lock s = None) ->
+  step_thread seq true false s t th <> None.
+Proof.
+  intros s t th Hd Ha. unfold step_thread. destruct (t_pc th) eqn:E; try discriminate.
+  - rewrite (Ha eq_refl). discriminate.
+  - destruct (gdone s); [discriminate|]. destruct (nth_error seq (gpos s)); discriminate.
+  - destruct (lenp s); discriminate.
+  - congruence.
+Qed.
+
+(* no deadlock: in every reachable state in which some operation has not finished, some thread
+   can take a step (a thread waiting in acquire() waits for a lock holder that can move) *)
+Theorem no_deadlock : forall ops sched,
+  all_done (reach ops sched) = false -> exists t, step seq true false (reach ops sched) t <> None.
+Proof.
+  intros ops sched Hnd. destruct (inv_reachable ops sched) as (HS & (HL1 & HL2) & HT).
+  fold (reach ops sched) in *. set (st := reach ops sched) in *.
+  destruct (all_done_false _ Hnd) as (t & th & Ht & Hpc).
+  destruct (lock (sh st)) as [u|] eqn:L.
+  - destruct (HL2 _ eq_refl) as (thu & Hu & Hcu). exists u. unfold step. rewrite Hu.
+    pose proof (step_thread_enabled (sh st) u thu) as K.
+    destruct (step_thread seq true false (sh st) u thu) as [[? ?]|]; [discriminate|].
+    exfalso. apply K; [| |reflexivity]; intros E; rewrite E in Hcu; discriminate.
+  - exists t. unfold step. rewrite Ht.
+    pose proof (step_thread_enabled (sh st) t th Hpc (fun _ => L)) as K.
+    destruct (step_thread seq true false (sh st) t th) as [[? ?]|]; [discriminate|]. congruence.
+Qed.
+
+(* bounded lock hold: inside the critical section a thread is never blocked, and each of its steps
+   strictly decreases a rank that is at most 31 -- so the lock is released within 31 of the
+   holder's own steps, whatever the other threads do (they cannot change its pc) *)
+Definition crit_rank (p : pc) : nat :=
+  match p with
+  | PTryO => 31 | PTestC => 30 | PTryI => 29
+  | PFor j => if (j <? batch)%nat then 2 * (batch - j) + 8 else 2
+  | PAdvance j => 2 * (batch - j) + 7
+  | PGenPub _ => 6 | PExcept => 5 | PSetGen => 4 | PSetC => 3
+  | PBreakC | PBreakE | PExcX => 2
+  | PRelease _ | PRelX => 1
+  | _ => 0
+  end.
+
+Theorem crit_progress : forall s t th,
+  in_crit (t_pc th) = true ->
+  (crit_rank (t_pc th) <= 31)%nat /\
+  exists s' th', step_thread seq true false s t th = Some (s', th') /\
+                 (in_crit (t_pc th') = true -> (crit_rank (t_pc th') < crit_rank (t_pc th))%nat) /\
+                 (crit_rank (t_pc th) = 1%nat -> lock s' = None /\ in_crit (t_pc th') = false).
+Proof.
+  intros s t th Hc. unfold step_thread. destruct th as [o p i g out res]. projs. unfold batch.
+  destruct p; try discriminate; cbn [crit_rank]; unfold batch.
+  - split; [lia|]. eexists _, _. split; [reflexivity|]. projs; cbn [crit_rank]; unfold batch. split; [lia|discriminate].
+  - split; [lia|]. eexists _, _. split; [reflexivity|]. projs.
+    destruct (complete s); cbn [crit_rank]; unfold batch; cbn [Nat.ltb Nat.leb]; split; try lia; discriminate.
+  - split; [lia|]. eexists _, _. split; [reflexivity|]. projs; cbn [crit_rank]; unfold batch. split; [lia|discriminate].
+  - split; [lia|]. eexists _, _. split; [reflexivity|]. projs; cbn [crit_rank]; unfold batch. unfold batch.
+    cbn [Nat.ltb Nat.leb]. split; [lia|discriminate].
+  - unfold batch. destruct (j <? 10)%nat eqn:E.
+    + apply Nat.ltb_lt in E. split; [lia|]. eexists _, _. split; [reflexivity|]. projs.
+      cbn [crit_rank]; unfold batch. split; [lia|]. lia.
+    + split; [lia|]. eexists _, _. split; [reflexivity|]. projs; cbn [crit_rank]; unfold batch. split; [lia|discriminate].
+  - split; [lia|]. destruct (gdone s).
+    + eexists _, _. split; [reflexivity|]. projs; cbn [crit_rank]; unfold batch. split; lia.
+    + destruct (nth_error seq (gpos s)); eexists _, _; (split; [reflexivity|]); projs; cbn [crit_rank]; unfold batch.
+      * unfold batch. destruct (S j <? 10)%nat eqn:E; [apply Nat.ltb_lt in E|]; split; lia.
+      * split; lia.
+  - split; [lia|]. eexists _, _. split; [reflexivity|]. projs; cbn [crit_rank]; unfold batch. split; [lia|discriminate].
+  - split; [lia|]. eexists _, _. split; [reflexivity|]. projs; cbn [crit_rank]; unfold batch. split; [lia|discriminate].
+  - split; [lia|]. eexists _, _. split; [reflexivity|]. projs; cbn [crit_rank]; unfold batch. split; [lia|discriminate].
+  - split; [lia|]. eexists _, _. split; [reflexivity|]. projs; cbn [crit_rank]; unfold batch. split; [lia|discriminate].
+  - split; [lia|]. eexists _, _. split; [reflexivity|]. projs; cbn [crit_rank]; unfold batch. split; [lia|discriminate].
+  - split; [lia|]. eexists _, _. split; [reflexivity|]. projs.
+    split; [destruct brk; discriminate|]. intros _. split; [reflexivity | destruct brk; reflexivity].
+  - split; [lia|]. eexists _, _. split; [reflexivity|]. projs; cbn [crit_rank]; unfold batch. split; [lia|discriminate].
+  - split; [lia|]. eexists _, _. split; [reflexivity|]. projs. split; [discriminate|]. intros _. split; reflexivity.
+Qed.
+
+End Inv.
+
+(* ------------------------------------------------------------------------------------------ *)
 (* The model can express the defect repaired by bb46216: with fixed = false (both `break`s leave the
    critical section without release()) two iterators over a 10-element rule deadlock. *)
 Definition dl_seq : list Z := [1;2;3;4;5;6;7;8;9;10].
 Definition dl_sched : list nat := repeat 1%nat 3 ++ repeat 0%nat 300 ++ repeat 1%nat 300.
 
 Lemma prefix_code_deadlocks :
-  let s := exec dl_seq false dl_sched (init [OList; OList]) in
-  all_done s = false /\ stuck dl_seq false s = true.
+  let s := exec dl_seq false false dl_sched (init [OList; OList]) in
+  all_done s = false /\ stuck dl_seq false false s = true.
 Proof. vm_compute. split; reflexivity. Qed.
 
+(* Finding F-C11-raise: when the underlying generator raises (raises = true), the cached rule shows the
+   ValueError only to the first iterator; the second gets TypeError (tail loop reads _len = None after the
+   dead generator's StopIteration marked the cache complete), later ones see a "complete" cache -- while an
+   uncached rule raises ValueError every time. *)
+Definition rz_sched : list nat := repeat 0%nat 80 ++ repeat 1%nat 80 ++ repeat 2%nat 80.
+
+Lemma raising_generator_differs :
+  map t_res (thr (exec [] true true rz_sched (init [OList; OList; OList]))) =
+    [Some (Raise EValueError); Some (Raise ETypeError); Some (Ret [])] /\
+  map t_res (thr (exec [1;2;3] true true rz_sched (init [OList; OList; OList]))) =
+    [Some (Raise EValueError); Some (Raise ETypeError); Some (Ret [1;2;3])] /\
+  spec_result_raising OList [] = Raise EValueError /\ spec_result_raising OList [1;2;3] = Raise EValueError.
+Proof. vm_compute. repeat split; reflexivity. Qed.
+
 Lemma fixed_code_same_schedule_completes :
-  let s := exec dl_seq true dl_sched (init [OList; OList]) in
+  let s := exec dl_seq true false dl_sched (init [OList; OList]) in
   all_done s = true /\
   map t_res (thr s) = [Some (Ret dl_seq); Some (Ret dl_seq)].
 Proof. vm_compute. split; reflexivity. Qed.
+
+(* ------------------------------------------------------------------------------------------ *)
+(* `x in rule` answered by __contains__'s own fast path (`item in self._cache`) agrees with the
+   uncached early-exit scan when the sequence is strictly increasing (always, for recurrences) *)
+From V Require Import rcache.PyList rcache.RQueryModel rcache.RQuerySpec rcache.RQueryThm.
+
+Lemma contains_consume : forall x rest seen,
+  wants (OContains x) seen = true ->
+  result (OContains x) (consume_from (OContains x) seen rest) =
+  Ret [if contains_loop x rest then 1 else 0].
+Proof.
+  intros x. induction rest as [|y r IH]; intros seen W.
+  - rewrite consume_from_nil. cbn [result contains_loop]. cbn [wants] in W.
+    destruct (last_opt seen) as [z|]; [|reflexivity].
+    destruct (z =? x) eqn:E; [|reflexivity]. apply Z.eqb_eq in E. apply Z.ltb_lt in W. lia.
+  - rewrite consume_from_step by exact W. cbn [contains_loop].
+    destruct (y =? x) eqn:E1.
+    + rewrite consume_from_stop.
+      * cbn [result]. rewrite last_opt_snoc, E1. reflexivity.
+      * cbn [wants]. rewrite last_opt_snoc. apply Z.eqb_eq in E1. apply Z.ltb_ge. lia.
+    + destruct (x <? y) eqn:E2.
+      * rewrite consume_from_stop.
+        -- cbn [result]. rewrite last_opt_snoc, E1. reflexivity.
+        -- cbn [wants]. rewrite last_opt_snoc. apply Z.ltb_lt in E2. apply Z.ltb_ge. lia.
+      * apply IH. cbn [wants]. rewrite last_opt_snoc. apply Z.ltb_lt.
+        apply Z.eqb_neq in E1. apply Z.ltb_ge in E2. lia.
+Qed.
+
+Lemma contains_fast_ok : forall seq x, incr seq ->
+  Ret [if existsb (Z.eqb x) seq then 1 else 0] = spec_result (OContains x) seq.
+Proof.
+  intros seq x H. cbn [spec_result]. unfold consume. rewrite contains_consume by reflexivity.
+  rewrite (contains_loop_correct _ _ H). reflexivity.
+Qed.
+
+(* For a strictly increasing sequence every finished operation returned exactly the uncached answer. *)
+Theorem results_match_uncached : forall seq ops sched t th,
+  incr seq ->
+  nth_error (thr (reach seq ops sched)) t = Some th -> t_pc th = PDone ->
+  t_res th = Some (spec_result (t_op th) seq).
+Proof.
+  intros seq ops sched t th Hi H Hd.
+  destruct (observes_uncached seq ops sched t th H) as (_ & _ & K).
+  destruct (K Hd) as (r & Hr & [E|(x & Eo & Er)]).
+  - rewrite Hr, E. reflexivity.
+  - rewrite Hr, Er, Eo. rewrite (contains_fast_ok _ _ Hi). reflexivity.
+Qed.
+
+(* Iterators (list(rule), for x in rule) need no hypothesis on seq at all. *)
+Theorem iterator_yields_seq : forall seq ops sched t th,
+  nth_error (thr (reach seq ops sched)) t = Some th ->
+  is_prefix (t_out th) seq /\
+  (t_op th = OList -> t_pc th = PDone -> t_res th = Some (Ret seq)).
+Proof.
+  intros seq ops sched t th H.
+  destruct (observes_uncached seq ops sched t th H) as (Hp & _ & K). split; [exact Hp|].
+  intros Eo Hd. destruct (K Hd) as (r & Hr & [E|(x & Eo' & _)]).
+  - rewrite Hr, E, Eo. reflexivity.
+  - congruence.
+Qed.
+
+(* non-vacuity: the hypotheses are satisfiable and the statements are about real runs *)
+Example reach_example :
+  let s := reach [10;20;30] [OList; OGet 1; OCount; OContains 20; OBetween 10 30 false]
+                 (flat_map (fun _ => [0;1;2;3;4]%nat) (seq 0 80)) in
+  all_done s = true /\
+  map t_res (thr s) = [Some (Ret [10;20;30]); Some (Ret [20]); Some (Ret [3]); Some (Ret [1]); Some (Ret [20])].
+Proof. vm_compute. split; reflexivity. Qed.
+
+(* ------------------------------------------------------------------------------------------ *)
+(* Termination: every successful step strictly decreases a measure, so every run is finite, and
+   (with no_deadlock) from every reachable state completion of ALL operations is reached by ANY way of
+   continuing with enabled steps, within a bound that depends only on |seq| and the number of threads. *)
+Section Term.
+Variable seq : list Z.
+Let N := length seq.
+
+Definition K : nat := 64.
+
+Definition rank (p : pc) : nat :=
+  match p with
+  | PQTest | PLenTest => 70 | PIterTest => 69
+  | PInit => 65 | PGetGen => 64 | PGetCache => 63 | PGetAcq => 62 | PGetRel => 61
+  | PWhile => 60 | PIfLen => 59 | PAcquire => 58 | PTryO => 57 | PTestC => 56 | PTryI => 55
+  | PFor j => 34 + 2 * (batch - j) | PAdvance j => 33 + 2 * (batch - j)
+  | PGenPub _ => 31 | PExcept => 30 | PSetGen => 29 | PSetC => 28 | PBreakE => 27 | PBreakC => 26
+  | PExcX => 22 | PRelX => 21
+  | PRelease _ => 20 | PYield => 19 | PIncr => 18
+  | PTWhile => 10 | PTYield => 9 | PTIncr => 8
+  | PRetLen => 1 | PDone => 0
+  end.
+
+Definition tm (th : thread) : nat :=
+  match t_pc th with
+  | PDone => 0
+  | PRetLen => 1
+  | p => (N + 1 - t_i th) * K + rank p + 2
+  end.
+
+Lemma tm_finish : forall x, (tm (finish x) <= 1)%nat.
+Proof. intros x. unfold finish, tm. destruct (t_op x); cbn [t_pc set_pc]; lia. Qed.
+
+Ltac tmsolve := unfold tm; cbn [t_pc t_i set_pc rank]; unfold K, batch; lia.
+Ltac tmfin := eapply Nat.le_lt_trans; [apply tm_finish | tmsolve].
+
+Lemma tm_live : forall th, t_pc th <> PDone -> t_pc th <> PRetLen ->
+  tm th = ((N + 1 - t_i th) * K + rank (t_pc th) + 2)%nat.
+Proof. intros th H1 H2. unfold tm. destruct (t_pc th) eqn:E; congruence. Qed.
+
+Lemma tm_do_yield : forall s th nxt,
+  t_pc th <> PDone -> t_pc th <> PRetLen -> (rank nxt < rank (t_pc th))%nat -> nxt <> PDone -> nxt <> PRetLen ->
+  (tm (do_yield s th nxt) < tm th)%nat.
+Proof.
+  intros s th nxt H1 H2 H3 H4 H5. unfold do_yield. rewrite (tm_live th H1 H2).
+  destruct (nth_error (cache s) (t_i th)) as [v|].
+  - destruct (wants (t_op th) (t_out th ++ [v])).
+    + rewrite tm_live by (cbn [t_pc]; assumption). cbn [t_pc t_i]. unfold K. lia.
+    + eapply Nat.le_lt_trans; [apply tm_finish | unfold K; lia].
+  - unfold tm at 1. cbn [t_pc]. unfold K. lia.
+Qed.
+
+Ltac projs := cbn [t_pc t_op t_i t_gen t_out t_res set_pc cache complete sgen gpos gdone lock lenp] in *.
+Ltac stepinv H := let E1 := fresh in let E2 := fresh in injection H as E1 E2; symmetry in E1; symmetry in E2; subst.
+
+Lemma step_thread_measure : forall s t th s' th',
+  shared_inv seq s -> thread_inv seq s th ->
+  step_thread seq true false s t th = Some (s', th') -> (tm th' < tm th)%nat.
+Proof.
+  intros s t th s' th' HS [Hpf HT] Hstep.
+  pose proof (si_len_cache seq s HS) as Hlen. pose proof (si_gpos_le seq s HS) as Hp. fold N in Hp.
+  unfold step_thread in Hstep. destruct th as [o p i g out res]. projs.
+  destruct p; projs.
+  - stepinv Hstep. destruct (complete s); [|tmsolve].
+    unfold fastq. projs. destruct o; try (unfold fast; tmfin). tmsolve.
+  - stepinv Hstep. destruct (lenp s); tmsolve.
+  - stepinv Hstep. destruct (complete s); [unfold fast; tmfin|]. destruct (wants o []); [tmsolve | tmfin].
+  - stepinv Hstep. destruct HT as [[_ Hi] _]. projs. subst i. tmsolve.
+  - stepinv Hstep. tmsolve.
+  - stepinv Hstep. tmsolve.
+  - stepinv Hstep. tmsolve.
+  - stepinv Hstep. tmsolve.
+  - stepinv Hstep. destruct g; tmsolve.
+  - stepinv Hstep. destruct (i =? length (cache s))%nat; tmsolve.
+  - destruct (lock s); [discriminate|]. stepinv Hstep. tmsolve.
+  - stepinv Hstep. tmsolve.
+  - stepinv Hstep. destruct (complete s); tmsolve.
+  - stepinv Hstep. tmsolve.
+  - stepinv Hstep. tmsolve.
+  - stepinv Hstep. destruct (j <? batch)%nat eqn:E; [apply Nat.ltb_lt in E; unfold batch in E|]; tmsolve.
+  - destruct HT as (_ & _ & Hj & _). unfold batch in Hj.
+    destruct (gdone s); [stepinv Hstep; tmsolve|].
+    destruct (nth_error seq (gpos s)); stepinv Hstep; tmsolve.
+  - stepinv Hstep. tmsolve.
+  - stepinv Hstep. tmsolve.
+  - stepinv Hstep. tmsolve.
+  - stepinv Hstep. tmsolve.
+  - stepinv Hstep. tmsolve.
+  - stepinv Hstep. destruct brk; tmsolve.
+  - destruct HT.
+  - destruct HT.
+  - stepinv Hstep. apply tm_do_yield; projs; cbn [rank]; try congruence; lia.
+  - stepinv Hstep. destruct HT as (_ & _ & _ & Hi & _). projs. tmsolve.
+  - destruct HT as (_ & Hg & _). destruct (si_done_cache seq s HS Hg) as [_ El]. rewrite El in Hstep.
+    stepinv Hstep. destruct (i <? length seq)%nat; [tmsolve | tmfin].
+  - stepinv Hstep. apply tm_do_yield; projs; cbn [rank]; try congruence; lia.
+  - stepinv Hstep. destruct HT as (_ & _ & _ & _ & Hi). projs. fold N in Hi. tmsolve.
+  - stepinv Hstep. tmsolve.
+  - discriminate.
+Qed.
+
+Definition total (st : state) : nat := fold_right (fun th a => (tm th + a)%nat) O (thr st).
+
+Lemma total_upd : forall l t x y, nth_error l t = Some x -> (tm y < tm x)%nat ->
+  (fold_right (fun th a => (tm th + a)%nat) O (upd l t y) < fold_right (fun th a => (tm th + a)%nat) O l)%nat.
+Proof.
+  induction l as [|a l IH]; intros [|t] x y H Hlt; try discriminate; cbn [upd fold_right nth_error] in *.
+  - injection H as ->. lia.
+  - specialize (IH _ _ _ H Hlt). lia.
+Qed.
+
+Theorem step_decreases : forall st t st',
+  Inv seq st -> step seq true false st t = Some st' -> (total st' < total st)%nat.
+Proof.
+  intros st t st' (HS & _ & HT) Hstep. unfold step in Hstep.
+  destruct (nth_error (thr st) t) as [th|] eqn:Et; [|discriminate].
+  destruct (step_thread seq true false (sh st) t th) as [[s' th']|] eqn:Es; [|discriminate].
+  injection Hstep as <-. unfold total. cbn [thr].
+  apply (total_upd _ _ th th' Et). apply (step_thread_measure _ _ _ _ _ HS (HT _ _ Et) Es).
+Qed.
+
+(* number of entries of a schedule that actually moved a thread *)
+Fixpoint taken (sched : list nat) (st : state) : nat :=
+  match sched with
+  | [] => O
+  | t :: r => match step seq true false st t with
+              | Some st' => S (taken r st')
+              | None => taken r st
+              end
+  end.
+
+Theorem taken_bounded : forall sched st, Inv seq st ->
+  (taken sched st + total (exec seq true false sched st) <= total st)%nat.
+Proof.
+  induction sched as [|t r IH]; intros st H; cbn [taken exec]; [lia|].
+  destruct (step seq true false st t) as [st'|] eqn:E.
+  - pose proof (step_decreases _ _ _ H E). pose proof (IH st' (step_inv seq _ _ _ H E)). lia.
+  - apply IH. exact H.
+Qed.
+
+Lemma exec_app : forall a b st, exec seq true false (a ++ b) st = exec seq true false b (exec seq true false a st).
+Proof. induction a as [|t a IH]; intros b st; cbn [app exec]; [reflexivity | apply IH]. Qed.
+
+(* from every reachable state, every operation completes: some continuation of at most `total` enabled
+   steps reaches all_done -- and by taken_bounded NO continuation can take more than `total` steps, so
+   any scheduler that keeps picking enabled threads finishes everything *)
+Theorem completion_reachable : forall n st, Inv seq st -> (total st <= n)%nat ->
+  exists ext, (length ext <= n)%nat /\ all_done (exec seq true false ext st) = true.
+Proof.
+  induction n as [|n IH]; intros st HI Hn.
+  - exists []. split; [cbn; lia|]. cbn [exec].
+    destruct (all_done st) eqn:A; [reflexivity|]. exfalso.
+    destruct (all_done_false _ A) as (t & th & Ht & Hpc).
+    assert (G : (1 <= total st)%nat).
+    { unfold total. clear - Ht Hpc. revert t Ht. induction (thr st) as [|a l IHl]; intros [|t] Ht; try discriminate;
+        cbn [nth_error fold_right] in *.
+      - injection Ht as ->. unfold tm. destruct (t_pc th) eqn:E; try congruence; unfold K; lia.
+      - specialize (IHl _ Ht). lia. }
+    lia.
+  - destruct (all_done st) eqn:A.
+    + exists []. split; [cbn; lia | exact A].
+    + assert (E : exists t st', step seq true false st t = Some st').
+      { (* no_deadlock for an arbitrary state satisfying Inv *)
+        destruct HI as (HS & (HL1 & HL2) & HT).
+        destruct (all_done_false _ A) as (t & th & Ht & Hpc).
+        destruct (lock (sh st)) as [u|] eqn:L.
+        - destruct (HL2 _ eq_refl) as (thu & Hu & Hcu). exists u. unfold step. rewrite Hu.
+          pose proof (step_thread_enabled seq (sh st) u thu) as Kx.
+          destruct (step_thread seq true false (sh st) u thu) as [[s2 th2]|]; [eauto|].
+          exfalso. apply Kx; [| |reflexivity]; intros E; rewrite E in Hcu; discriminate.
+        - exists t. unfold step. rewrite Ht.
+          pose proof (step_thread_enabled seq (sh st) t th Hpc (fun _ => L)) as Kx.
+          destruct (step_thread seq true false (sh st) t th) as [[s2 th2]|]; [eauto|]. congruence. }
+      destruct E as (t & st' & E).
+      pose proof (step_decreases _ _ _ HI E) as D.
+      destruct (IH st' (step_inv seq _ _ _ HI E)) as (ext & Hl & Hd); [lia|].
+      exists (t :: ext). split; [cbn [length]; lia|]. cbn [exec]. rewrite E. exact Hd.
+Qed.
+
+(* the bound for a run from the initial state: 64*(|seq|+1) + 72 per thread *)
+Lemma total_init : forall ops, (total (init ops) <= length ops * ((N + 1) * K + 72))%nat.
+Proof.
+  intros ops. unfold total, init. cbn [thr]. induction ops as [|o ops IH]; cbn [map fold_right length]; [lia|].
+  assert (G : (tm (init_thread o) <= (N + 1) * K + 72)%nat).
+  { unfold tm, init_thread. cbn [t_pc t_i]. destruct o; cbn [start_pc rank]; lia. }
+  lia.
+Qed.
+
+Theorem every_operation_completes : forall ops sched,
+  let bound := (length ops * ((length seq + 1) * 64 + 72))%nat in
+  (taken sched (init ops) <= bound)%nat /\
+  exists ext, (length ext <= bound)%nat /\
+              all_done (exec seq true false (sched ++ ext) (init ops)) = true.
+Proof.
+  intros ops sched bound.
+  pose proof (total_init ops) as TI. fold N in bound. unfold K in TI. fold bound in TI.
+  pose proof (taken_bounded sched (init ops) (inv_init seq ops)) as TB.
+  split; [lia|].
+  destruct (completion_reachable bound (exec seq true false sched (init ops))) as (ext & Hl & Hd).
+  - apply inv_exec, inv_init.
+  - lia.
+  - exists ext. split; [exact Hl|]. rewrite exec_app. exact Hd.
+Qed.
+
+(* ---- the fuelled drivers of single-threaded histories (run_next / run_done of RCacheModel.v) never run
+   out of fuel and never report a deadlock: from a quiescent state (lock free) satisfying Inv, with
+   fuel above the thread's measure, they return a value / StopIteration / a finished operation, in a
+   state that again satisfies Inv and is quiescent -- so they compose along any history. *)
+
+Definition quiet (st : state) : Prop := lock (sh st) = None.
+
+Definition others_out (st : state) (t : nat) : Prop :=
+  forall u th, u <> t -> nth_error (thr st) u = Some th -> in_crit (t_pc th) = false.
+
+Lemma quiet_others_out : forall st t, Inv seq st -> quiet st -> others_out st t.
+Proof.
+  intros st t (_ & (HL1 & _) & _) Q u th _ Hu. destruct (in_crit (t_pc th)) eqn:E; [|reflexivity].
+  unfold quiet in Q. rewrite (HL1 _ _ Hu E) in Q. discriminate.
+Qed.
+
+Lemma out_quiet : forall st t th, Inv seq st -> others_out st t ->
+  nth_error (thr st) t = Some th -> in_crit (t_pc th) = false -> quiet st.
+Proof.
+  intros st t th (_ & (_ & HL2) & _) HO Ht Hc. unfold quiet.
+  destruct (lock (sh st)) as [u|] eqn:L; [|reflexivity]. exfalso.
+  destruct (HL2 _ eq_refl) as (thu & Hu & Hcu). destruct (Nat.eq_dec u t) as [->|Ne].
+  - congruence.
+  - rewrite (HO _ _ Ne Hu) in Hcu. discriminate.
+Qed.
+
+Lemma step_others_out : forall st t st', others_out st t -> step seq true false st t = Some st' -> others_out st' t.
+Proof.
+  intros st t st' HO Hstep u th Ne Hu. unfold step in Hstep.
+  destruct (nth_error (thr st) t) as [th0|]; [|discriminate].
+  destruct (step_thread seq true false (sh st) t th0) as [[s' th']|]; [|discriminate].
+  injection Hstep as <-. cbn [thr] in Hu. rewrite nth_error_upd_other in Hu by congruence.
+  apply (HO _ _ Ne Hu).
+Qed.
+
+Lemma step_thread_of : forall st t st' th, step seq true false st t = Some st' -> nth_error (thr st) t = Some th ->
+  exists s' th', step_thread seq true false (sh st) t th = Some (s', th') /\ sh st' = s' /\
+                 nth_error (thr st') t = Some th'.
+Proof.
+  intros st t st' th Hstep Ht. unfold step in Hstep. rewrite Ht in Hstep.
+  destruct (step_thread seq true false (sh st) t th) as [[s' th']|]; [|discriminate].
+  injection Hstep as <-. exists s', th'. cbn [sh thr]. split; [reflexivity|]. split; [reflexivity|].
+  apply (nth_error_upd_same _ _ _ _ _ Ht).
+Qed.
+
+(* a thread running alone is never blocked *)
+Lemma solo_enabled : forall st t th, Inv seq st -> others_out st t ->
+  nth_error (thr st) t = Some th -> t_pc th <> PDone -> step seq true false st t <> None.
+Proof.
+  intros st t th HI HO Ht Hpc. pose proof HI as (_ & (HL1 & HL2) & _). unfold step. rewrite Ht.
+  pose proof (step_thread_enabled seq (sh st) t th Hpc) as Kx.
+  destruct (step_thread seq true false (sh st) t th) as [[s2 th2]|]; [discriminate|]. exfalso. apply Kx; [|reflexivity].
+  intros Ea. destruct (lock (sh st)) as [u|] eqn:L; [|reflexivity]. exfalso.
+  destruct (HL2 _ eq_refl) as (thu & Hu & Hcu). destruct (Nat.eq_dec u t) as [->|Ne].
+  - rewrite Ht in Hu. injection Hu as <-. rewrite Ea in Hcu. discriminate.
+  - rewrite (HO _ _ Ne Hu) in Hcu. discriminate.
+Qed.
+
+Theorem run_done_total : forall fuel st t th,
+  Inv seq st -> others_out st t -> nth_error (thr st) t = Some th -> (tm th < fuel)%nat ->
+  exists st' th', run_done seq true false fuel st t = Some (Some st') /\ Inv seq st' /\ quiet st' /\
+                  nth_error (thr st') t = Some th' /\ t_pc th' = PDone.
+Proof.
+  induction fuel as [|f IH]; intros st t th HI HO Ht Hf; [lia|].
+  cbn [run_done]. rewrite Ht. destruct (t_pc th) eqn:Epc;
+    try (destruct (step seq true false st t) as [st1|] eqn:Es;
+         [ destruct (step_thread_of _ _ _ _ Es Ht) as (s1 & th1 & Hs1 & _ & Ht1);
+           pose proof HI as (HS0 & _ & HT0);
+           pose proof (step_thread_measure _ _ _ _ _ HS0 (HT0 _ _ Ht) Hs1) as Hm;
+           apply (IH st1 t th1 (step_inv seq _ _ _ HI Es) (step_others_out _ _ _ HO Es) Ht1); lia
+         | exfalso; apply (solo_enabled st t th HI HO Ht); [congruence | exact Es] ]).
+  exists st, th. split; [reflexivity|]. split; [exact HI|]. split; [|split; [exact Ht | exact Epc]].
+  apply (out_quiet st t th HI HO Ht). rewrite Epc. reflexivity.
+Qed.
+
+(* in the critical section a thread receives nothing *)
+Lemma crit_step_out : forall s t th s' th',
+  step_thread seq true false s t th = Some (s', th') -> in_crit (t_pc th') = true -> t_out th' = t_out th.
+Proof.
+  intros s t th s' th' Hstep Hc. unfold step_thread in Hstep. destruct th as [o p i g out res]. projs.
+  assert (Hfin : forall x, in_crit (t_pc (finish x)) = false).
+  { intros x. unfold finish. destruct (t_op x); reflexivity. }
+  assert (Hy : forall x nxt, in_crit nxt = false -> in_crit (t_pc (do_yield s x nxt)) = false).
+  { intros x nxt Hn. unfold do_yield. destruct (nth_error (cache s) (t_i x)) as [z|]; [|reflexivity].
+    destruct (wants (t_op x) (t_out x ++ [z])); [exact Hn | apply Hfin]. }
+  destruct p; projs;
+    try (stepinv Hstep; projs;
+         repeat match goal with
+                | H : context [if ?b then _ else _] |- _ => destruct b
+                | H : context [match ?b with Some _ => _ | None => _ end] |- _ => destruct b
+                | |- context [if ?b then _ else _] => destruct b
+                | |- context [match ?b with Some _ => _ | None => _ end] => destruct b
+                end; projs; try reflexivity; try discriminate;
+         try (rewrite Hfin in Hc; discriminate); try (rewrite Hy in Hc by reflexivity; discriminate);
+         try (unfold fastq, fast in Hc; projs; destruct o; projs; try discriminate; rewrite Hfin in Hc; discriminate)).
+  - destruct (lock s); [discriminate|]. stepinv Hstep. reflexivity.
+  - destruct (gdone s); [stepinv Hstep; reflexivity|].
+    destruct (nth_error seq (gpos s)); stepinv Hstep; reflexivity.
+  - destruct (lenp s); stepinv Hstep; projs; try discriminate.
+    destruct (i <? n)%nat; projs; [discriminate | rewrite Hfin in Hc; discriminate].
+  - discriminate.
+Qed.
+
+Theorem run_next_total : forall fuel st t th have,
+  Inv seq st -> others_out st t -> nth_error (thr st) t = Some th -> (tm th < fuel)%nat ->
+  (in_crit (t_pc th) = true -> (length (t_out th) <= have)%nat) ->
+  exists st', Inv seq st' /\ quiet st' /\
+              ((exists v, run_next seq true false fuel st t have = NValue v st') \/
+               run_next seq true false fuel st t have = NStop st' \/
+               (exists e, run_next seq true false fuel st t have = NRaise e st')).
+Proof.
+  induction fuel as [|f IH]; intros st t th have HI HO Ht Hf Hc; [lia|].
+  cbn [run_next]. rewrite Ht. destruct (have <? length (t_out th))%nat eqn:Eh.
+  - apply Nat.ltb_lt in Eh. destruct (nth_error_lt_some (t_out th) have Eh) as [v Hv]. rewrite Hv.
+    exists st. split; [exact HI|]. split; [|left; exists v; reflexivity].
+    apply (out_quiet st t th HI HO Ht). destruct (in_crit (t_pc th)) eqn:E; [|reflexivity].
+    specialize (Hc eq_refl). lia.
+  - apply Nat.ltb_ge in Eh. destruct (t_pc th) eqn:Epc;
+      try (destruct (step seq true false st t) as [st1|] eqn:Es;
+           [ destruct (step_thread_of _ _ _ _ Es Ht) as (s1 & th1 & Hs1 & _ & Ht1);
+             pose proof HI as (HS0 & _ & HT0);
+             pose proof (step_thread_measure _ _ _ _ _ HS0 (HT0 _ _ Ht) Hs1) as Hm;
+             apply (IH st1 t th1 have (step_inv seq _ _ _ HI Es) (step_others_out _ _ _ HO Es) Ht1); [lia|];
+             intros Hc1; rewrite (crit_step_out _ _ _ _ _ Hs1 Hc1); exact Eh
+           | exfalso; apply (solo_enabled st t th HI HO Ht); [congruence | exact Es] ]).
+    exists st. split; [exact HI|]. split; [apply (out_quiet st t th HI HO Ht); rewrite Epc; reflexivity|].
+    destruct (t_res th) as [[l|e]|]; [right; left; reflexivity | right; right; eexists; reflexivity | right; left; reflexivity].
+Qed.
+
+Lemma tm_bound : forall th, (tm th <= 64 * (length seq + 1) + 72)%nat.
+Proof.
+  intros th. unfold tm. fold N. destruct (t_pc th); cbn [rank]; unfold K, batch; lia.
+Qed.
+
+(* what ExtractRcache.hist_run relies on: with fuel 64*(|seq|+1)+80, from a quiescent state, a next()
+   returns a value / StopIteration / the operation's exception, a query runs to completion, and the
+   state is quiescent again (never NFuel, never NDeadlock) *)
+Theorem history_drivers_total : forall st t th have,
+  Inv seq st -> quiet st -> nth_error (thr st) t = Some th ->
+  let fuel := (64 * (length seq + 1) + 80)%nat in
+  (exists st', Inv seq st' /\ quiet st' /\
+               ((exists v, run_next seq true false fuel st t have = NValue v st') \/
+                run_next seq true false fuel st t have = NStop st' \/
+                (exists e, run_next seq true false fuel st t have = NRaise e st'))) /\
+  (exists st' th', run_done seq true false fuel st t = Some (Some st') /\ Inv seq st' /\ quiet st' /\
+                   nth_error (thr st') t = Some th' /\ t_pc th' = PDone).
+Proof.
+  intros st t th have HI Q Ht fuel. pose proof (tm_bound th) as B.
+  pose proof (quiet_others_out st t HI Q) as HO. split.
+  - apply (run_next_total fuel st t th have HI HO Ht); [unfold fuel; lia|].
+    intros Hc. exfalso. destruct HI as (_ & (HL1 & _) & _). unfold quiet in Q. rewrite (HL1 _ _ Ht Hc) in Q. discriminate.
+  - apply (run_done_total fuel st t th HI HO Ht). unfold fuel. lia.
+Qed.
+
+End Term.
